@@ -266,14 +266,20 @@ pub fn str_to_dec(lit: &str) -> Result<(i128, isize), ParseDecimalError> {
     let n_int_digits = lit.accum_coeff(&mut coeff);
     // Check for radix point and parse fractional digits.
     let mut n_frac_digits = 0_usize;
+    // Leading zeros of the fraction are not significant if there are no
+    // (non-zero) integral digits.
+    let mut n_frac_leading_zeroes = 0_usize;
     if let Some(c) = lit.first() {
         if *c == b'.' {
             // Safety: safe because of condition above
             unsafe { lit.skip_1() };
             if n_int_digits == 0 {
+                n_frac_leading_zeroes =
+                    lit.len() - lit.skip_leading_zeroes().len();
                 first_digit = lit.first().copied();
             }
-            n_frac_digits = lit.accum_coeff(&mut coeff);
+            n_frac_digits =
+                n_frac_leading_zeroes + lit.accum_coeff(&mut coeff);
         }
     }
     let n_digits = n_int_digits + n_frac_digits;
@@ -286,6 +292,8 @@ pub fn str_to_dec(lit: &str) -> Result<(i128, isize), ParseDecimalError> {
     //    or first digit > 1 (value >= 2 * 10³⁸ > i128::MAX, the wrapped coeff
     //    may look valid)
     // 3. coeff > i128::MAX
+    // (only significant digits count)
+    let n_digits = n_digits - n_frac_leading_zeroes;
     #[cfg(feature = "verif-hooks")]
     if n_digits > 39 {
         verif::hit(verif::PARSE_OVF_NDIGITS);
